@@ -336,7 +336,7 @@ def check_phase(spec, form, which):
     orig_names = all_names(stmts) | all_names(orig_stmts)
     orig_ids = {s.id for s in orig_stmts}
     try:
-        with kernel.time_limit(20):
+        with kernel.time_limit(120):
             new = apply_pass(ast, which)
     except kernel.Budget:
         return ("budget", "pass %s did not terminate" % which), False, None
